@@ -218,6 +218,9 @@ pub fn cases(thorough: bool) -> Vec<Case> {
             ctxs.push((format!("wrapped-{}", head), vec![], wr.to_string()));
             ctxs.push((format!("wrapped-{}-in-procedure", head), vec![format!("(define (p) {})", wr)], "(p)".to_string()));
         }
+        // the fault handed to / written inside the template of a user-defined macro
+        ctxs.push(("through-user-macro".to_string(), vec!["(define-syntax my-wrap (syntax-rules () ((my-wrap e) (list 0 e))))".to_string()], format!("(my-wrap {})", PH)));
+        ctxs.push(("through-user-macro-in-procedure".to_string(), vec!["(define-syntax my-wrap (syntax-rules () ((my-wrap e ...) (begin e ...))))".to_string(), format!("(define (p) (my-wrap 0 {}))", PH)], "(p)".to_string()));
         for (ci, (name, defs, form)) in ctxs.iter().enumerate() {
             // the layout plans apply to the failing form; forms without F get a rotating sample
             let has_f = form.contains(PH);
